@@ -8,6 +8,36 @@
 #include "kit/runner.hh"
 #include <sstream>
 
+// Access to the sub-range operations of Linear_Expression that the library's own clients use (they are private, but
+// `template <typename T> friend class Expression_Hide_Last;` befriends every specialization, this one included).
+namespace Parma_Polyhedra_Library {
+struct Verif_Rows_Access_Tag;
+template <>
+class Expression_Hide_Last<Verif_Rows_Access_Tag> {
+public:
+  typedef Linear_Expression LE;
+  static bool hacv(const LE& a, const LE& b, Variable f, Variable l) { return a.have_a_common_variable(b, f, l); }
+  static bool all_zeroes(const LE& a, dimension_type s, dimension_type e) { return a.all_zeroes(s, e); }
+  static dimension_type num_zeroes(const LE& a, dimension_type s, dimension_type e) { return a.num_zeroes(s, e); }
+  static Coefficient gcd(const LE& a, dimension_type s, dimension_type e) { return a.gcd(s, e); }
+  static dimension_type first_nonzero(const LE& a, dimension_type s, dimension_type e) { return a.first_nonzero(s, e); }
+  static dimension_type last_nonzero(const LE& a, dimension_type s, dimension_type e) { return a.last_nonzero(s, e); }
+  static dimension_type last_nonzero(const LE& a) { return a.last_nonzero(); }
+  static void sp(Coefficient& r, const LE& a, const LE& b, dimension_type s, dimension_type e) { a.scalar_product_assign(r, b, s, e); }
+  static int sps(const LE& a, const LE& b, dimension_type s, dimension_type e) { return a.scalar_product_sign(b, s, e); }
+  static bool eq(const LE& a, const LE& b, dimension_type s, dimension_type e) { return a.is_equal_to(b, s, e); }
+  static bool eqs(const LE& a, const LE& b, Coefficient_traits::const_reference c1, Coefficient_traits::const_reference c2, dimension_type s, dimension_type e) { return a.is_equal_to(b, c1, c2, s, e); }
+  static bool aze(const LE& a, const Variables_Set& vs, dimension_type s, dimension_type e) { return a.all_zeroes_except(vs, s, e); }
+  static void mul(LE& a, Coefficient_traits::const_reference c, dimension_type s, dimension_type e) { a.mul_assign(c, s, e); }
+  static void neg(LE& a, dimension_type s, dimension_type e) { a.negate(s, e); }
+  static void ediv(LE& a, Coefficient_traits::const_reference c, dimension_type s, dimension_type e) { a.exact_div_assign(c, s, e); }
+  static void lc(LE& a, const LE& b, Coefficient_traits::const_reference c1, Coefficient_traits::const_reference c2, dimension_type s, dimension_type e) { a.linear_combine(b, c1, c2, s, e); }
+  static void lclax(LE& a, const LE& b, Coefficient_traits::const_reference c1, Coefficient_traits::const_reference c2, dimension_type s, dimension_type e) { a.linear_combine_lax(b, c1, c2, s, e); }
+  static void lci(LE& a, const LE& b, dimension_type i) { a.linear_combine(b, i); }
+};
+}  // namespace Parma_Polyhedra_Library
+
+
 namespace PPL = Parma_Polyhedra_Library;
 using PPL::Sparse_Row; using PPL::Dense_Row; using PPL::Coefficient; using PPL::dimension_type;
 using PPL::Linear_Expression; using PPL::Variable; using PPL::Variables_Set;
@@ -42,7 +72,7 @@ struct RowsHarness : Harness {
       "lin_comb", "lin_comb", "lin_comb_range", "combine_first", "combine_second", "combine", "normalize", "copy_cap", "assign", "assign_cross", "insert_alias", "insert_alias", "m_swap", "from_dense", "to_dense",
       "dump_load", "burst", "burst", "clear", "iterate", "iterate" };
     static const char* expr_ops[] = { "e_setcoef", "e_setcoef", "e_setinh", "e_add", "e_sub", "e_mul", "e_addmul", "e_submul", "e_addvar", "e_neg", "e_lincomb",
-      "e_swapdims", "e_shift", "e_remove", "e_permute", "e_setdim", "e_equal", "e_queries", "e_copyrep", "e_normalize", "e_dump_load", "e_iterate", "e_mixed_add", "e_mixed_lincomb" };
+      "e_swapdims", "e_shift", "e_remove", "e_permute", "e_setdim", "e_equal", "e_queries", "e_copyrep", "e_normalize", "e_dump_load", "e_iterate", "e_mixed_add", "e_mixed_lincomb", "e_ranges", "e_ranges" };
     for (long i = 0; i < n; ++i) {
       Op op;
       if (expr) op.kind = expr_ops[r.below(sizeof expr_ops / sizeof *expr_ops)];
@@ -266,6 +296,98 @@ struct RowsHarness : Harness {
       else if (k == "e_iterate") { }
       else if (k == "e_mixed_add") { if (!distinct) continue; x.d += y.s; x.s += y.d; ctx.stat("rows.mixed_representation_ops"); }
       else if (k == "e_mixed_lincomb") { if (!distinct || v == 0 || w == 0) continue; x.d.linear_combine(y.s, v, w); x.s.linear_combine(y.d, v, w); ctx.stat("rows.mixed_representation_ops"); }
+      else if (k == "e_ranges") {
+        // the sub-range operations (indices: 0 = inhomogeneous term, i + 1 = Variable(i)) against a plain vector model,
+        // on every combination of representations
+        typedef PPL::Expression_Hide_Last<PPL::Verif_Rows_Access_Tag> A;
+        auto evec = [](const Linear_Expression& e) { std::vector<mpz_class> r(e.space_dimension() + 1); r[0] = mpz_class(e.inhomogeneous_term());
+          for (dimension_type i = 0; i < e.space_dimension(); ++i) r[i + 1] = mpz_class(e.coefficient(Variable(i))); return r; };
+        std::vector<mpz_class> mx = evec(x.d), my = evec(y.d);
+        dimension_type lim = std::min(mx.size(), my.size());
+        dimension_type s0 = (dimension_type) op.mod(2, (long) lim + 1), e0 = (dimension_type) op.mod(3, (long) lim + 1);
+        if (s0 > e0) std::swap(s0, e0);
+        long sub = op.mod(6, 13);
+        std::string rl = "Linear_Expression|e_ranges|" + std::to_string(sub);
+        ctx.stat("rows.range_ops");
+        auto bad = [&](const char* what) { ctx.violation("C16", "expr-range", rl, std::string(what) + " on [" + std::to_string(s0) + "," + std::to_string(e0) + ") disagrees with the coefficient-wise definition or between representations"); };
+        if (sub == 0) {
+          dimension_type f = std::min(s0, lim - 1), l = std::min(e0, lim - 1);
+          bool ref = false; for (dimension_type i = f; i < l; ++i) if (mx[i + 1] != 0 && my[i + 1] != 0) ref = true;
+          if (A::hacv(x.d, y.d, Variable(f), Variable(l)) != ref || A::hacv(x.s, y.s, Variable(f), Variable(l)) != ref
+              || A::hacv(x.d, y.s, Variable(f), Variable(l)) != ref || A::hacv(x.s, y.d, Variable(f), Variable(l)) != ref) bad("have_a_common_variable");
+        }
+        else if (sub == 1) {
+          bool az = true; dimension_type nz = 0; mpz_class g = 0;
+          for (dimension_type i = s0; i < e0; ++i) { if (mx[i] != 0) az = false; else ++nz; g = gcd(g, mx[i]); }
+          if (A::all_zeroes(x.d, s0, e0) != az || A::all_zeroes(x.s, s0, e0) != az) bad("all_zeroes");
+          if (A::num_zeroes(x.d, s0, e0) != nz || A::num_zeroes(x.s, s0, e0) != nz) bad("num_zeroes");
+          if (mpz_class(A::gcd(x.d, s0, e0)) != g || mpz_class(A::gcd(x.s, s0, e0)) != g) bad("gcd");
+        }
+        else if (sub == 2) {
+          dimension_type fn = e0, ln = e0;
+          for (dimension_type i = s0; i < e0; ++i) if (mx[i] != 0) { fn = i; break; }
+          for (dimension_type i = e0; i-- > s0; ) if (mx[i] != 0) { ln = i; break; }
+          if (A::first_nonzero(x.d, s0, e0) != fn || A::first_nonzero(x.s, s0, e0) != fn) bad("first_nonzero");
+          if (A::last_nonzero(x.d, s0, e0) != ln || A::last_nonzero(x.s, s0, e0) != ln) bad("last_nonzero");
+          dimension_type la = 0; for (dimension_type i = mx.size(); i-- > 0; ) if (mx[i] != 0) { la = i; break; }
+          if (A::last_nonzero(x.d) != la || A::last_nonzero(x.s) != la) bad("last_nonzero()");
+        }
+        else if (sub == 3) {
+          mpz_class ref = 0; for (dimension_type i = s0; i < e0; ++i) ref += mx[i] * my[i];
+          int sg = sgn(ref);
+          const Linear_Expression* xs[2] = { &x.d, &x.s }; const Linear_Expression* ys[2] = { &y.d, &y.s };
+          for (int a = 0; a < 2; ++a) for (int b = 0; b < 2; ++b) {
+            Coefficient r; A::sp(r, *xs[a], *ys[b], s0, e0);
+            if (mpz_class(r) != ref) bad("scalar_product_assign");
+            int q = A::sps(*xs[a], *ys[b], s0, e0);
+            if ((q > 0) - (q < 0) != sg) bad("scalar_product_sign");
+          }
+        }
+        else if (sub == 4 || sub == 5) {
+          Coefficient c1 = (sub == 4) ? Coefficient(1) : v, c2 = (sub == 4) ? Coefficient(1) : w;
+          bool ref = true; for (dimension_type i = s0; i < e0; ++i) if (mx[i] * mpz_class(c1) != my[i] * mpz_class(c2)) ref = false;
+          const Linear_Expression* xs[2] = { &x.d, &x.s }; const Linear_Expression* ys[2] = { &y.d, &y.s };
+          for (int a = 0; a < 2; ++a) for (int b = 0; b < 2; ++b) {
+            bool got = (sub == 4) ? A::eq(*xs[a], *ys[b], s0, e0) : A::eqs(*xs[a], *ys[b], c1, c2, s0, e0);
+            if (got != ref) bad(sub == 4 ? "is_equal_to(y, start, end)" : "is_equal_to(y, c1, c2, start, end)");
+          }
+        }
+        else if (sub == 6) {
+          if (s0 == e0) continue;
+          Variables_Set vs; long mask = op.arg(7); for (dimension_type q = 0; q < 10; ++q) if (mask & (1L << q)) vs.insert(Variable(q));
+          bool ref = true; for (dimension_type i = s0; i < e0; ++i) if (mx[i] != 0 && (i == 0 || vs.count(i - 1) == 0)) ref = false;
+          if (A::aze(x.d, vs, s0, e0) != ref || A::aze(x.s, vs, s0, e0) != ref) bad("all_zeroes_except");
+        }
+        else {
+          // mutators: the same call on both replicas, then the model
+          std::vector<mpz_class> want = mx;
+          bool mixed = (op.arg(7) & 1) != 0;
+          if (sub == 7) { A::mul(x.d, v, s0, e0); A::mul(x.s, v, s0, e0); for (dimension_type i = s0; i < e0; ++i) want[i] *= mpz_class(v); }
+          else if (sub == 8) { A::neg(x.d, s0, e0); A::neg(x.s, s0, e0); for (dimension_type i = s0; i < e0; ++i) want[i] = -want[i]; }
+          else if (sub == 9) { mpz_class g = 0; for (dimension_type i = s0; i < e0; ++i) g = gcd(g, mx[i]); if (g == 0) continue; if (v < 0) g = -g;
+            Coefficient gc(g); A::ediv(x.d, gc, s0, e0); A::ediv(x.s, gc, s0, e0); for (dimension_type i = s0; i < e0; ++i) want[i] /= g; }
+          else if (sub == 10 || sub == 11) {
+            if (!distinct) continue;
+            if (sub == 10 && (v == 0 || w == 0)) continue;
+            if (sub == 10) { A::lc(x.d, mixed ? y.s : y.d, v, w, s0, e0); A::lc(x.s, mixed ? y.d : y.s, v, w, s0, e0); }
+            else { A::lclax(x.d, mixed ? y.s : y.d, v, w, s0, e0); A::lclax(x.s, mixed ? y.d : y.s, v, w, s0, e0); }
+            if (mixed) ctx.stat("rows.mixed_representation_ops");
+            for (dimension_type i = s0; i < e0; ++i) want[i] = mpz_class(v) * mx[i] + mpz_class(w) * my[i];
+          }
+          else {
+            if (!distinct || mx.size() != my.size()) continue;
+            dimension_type i = std::min(s0, lim - 1);
+            if (mx[i] == 0 || my[i] == 0) continue;
+            A::lci(x.d, mixed ? y.s : y.d, i); A::lci(x.s, mixed ? y.d : y.s, i);
+            if (mixed) ctx.stat("rows.mixed_representation_ops");
+            std::vector<mpz_class> got = evec(x.d);
+            // x := a*x + b*y with x[i] = 0, a != 0: every 2x2 minor with column i of (got, y) equals that of (a*x, y)
+            if (got[i] != 0) bad("linear_combine(y, i): coefficient i not cancelled");
+            want = got;
+          }
+          if (evec(x.d) != want) bad("range mutator (dense replica vs model)");
+        }
+      }
       else continue;
       ++ctx.ops_done;
       if (!eagree(ctx, op, x) || (distinct && !eagree(ctx, op, y))) break;
